@@ -23,6 +23,7 @@ import (
 
 	"chainguard.dev/apko/pkg/apk/apk"
 	apkfs "chainguard.dev/apko/pkg/apk/fs"
+	apkobuild "chainguard.dev/apko/pkg/build"
 	"chainguard.dev/apko/pkg/build/types"
 	"chainguard.dev/apko/pkg/sbom/generator/spdx"
 	"chainguard.dev/apko/pkg/sbom/options"
@@ -1029,6 +1030,61 @@ func mlicCases(w *gal.Writer, seed uint64, tier string) {
 	}
 }
 
+// readReleaseData on an in-memory filesystem holding (or not holding) etc/os-release
+func releaseCases(w *gal.Writer, seed uint64, tier string) {
+	add := func(content *string, class string) {
+		fsys := apkfs.NewMemFS()
+		file := "None"
+		if content != nil {
+			_ = fsys.MkdirAll("etc", 0o755)
+			if err := fsys.WriteFile("etc/os-release", []byte(*content), 0o644); err != nil {
+				panic(err)
+			}
+			file = "(Some " + gal.Str(*content) + ")"
+		}
+		obs, desc := "None", map[string]any{"error": true}
+		func() {
+			defer func() {
+				if r := recover(); r != nil {
+					implViolation("read-release-data-panics", map[string]any{"content": content, "panic": fmt.Sprint(r)})
+				}
+			}()
+			id, name, ver, err := apkobuild.VerifReadReleaseData(fsys)
+			if err == nil {
+				obs = fmt.Sprintf("(Some (%s, %s, %s))", gal.Str(id), gal.Str(name), gal.Str(ver))
+				desc = map[string]any{"ID": id, "NAME": name, "VERSION_ID": ver}
+			}
+		}()
+		var c any
+		if content != nil {
+			c = []byte(*content)
+		}
+		w.Add(gal.Case{Term: fmt.Sprintf("(LRelease {| rl_file := %s; rl_obs := %s |})", file, obs), Class: "release/" + class,
+			Trivial: content == nil, Desc: map[string]any{"os_release": c, "os_release_text": content, "observed": desc}})
+	}
+	add(nil, "corpus")
+	for _, s := range []string{"", "\n", "ID=wolfi\nNAME=\"Wolfi\"\nVERSION_ID=20230201\n", "ID=a\nID=b", "VERSION_ID=\"\"1\"\"\n", "VERSION_ID=\"\n",
+		"# VERSION_ID=9\nVERSION_ID=1\r\n\r\nNAME=x\r", "VERSION_ID=1\noops\n", " VERSION_ID=1\nVERSION_ID =2\nVERSION_ID= 3 \n", "=x\nVERSION_ID==\"a=b\"\n",
+		"VERSION_ID=1\n #c\n", "VERSION_ID=1\n#\n\n\n", "PRETTY_NAME=\"a \\\"b\\\"\"\nVERSION_ID='1'\n", "\r", "\r\r\nID=x", "ID=x\r\r\n", "VERSION_ID=1\nVERSION_ID\n", "VERSION_ID=caf\xc3\xa9\xff\n"} {
+		s := s
+		add(&s, "corpus")
+	}
+	r := gal.NewRand(seed + 71)
+	n := 60
+	if tier == "thorough" {
+		n = 1500
+	}
+	atoms := []string{"ID", "NAME", "VERSION_ID", "VERSION", "=", "=", "\"", "\n", "\n", "\r\n", "#", " ", "x", "1", "20230201", "\r", "'"}
+	for i := 0; i < n; i++ {
+		var sb strings.Builder
+		for j, k := 0, r.Intn(14); j < k; j++ {
+			sb.WriteString(atoms[r.Intn(len(atoms))])
+		}
+		s := sb.String()
+		add(&s, "random")
+	}
+}
+
 type licDesc struct {
 	In   genIn       `json:"input"`
 	Obs  obsT        `json:"observed"`
@@ -1054,6 +1110,7 @@ func licCase(w *gal.Writer, g genIn, class string) {
 func licStage(dir string, seed uint64, tier string) error {
 	w := &gal.Writer{Dir: dir, Require: "From Apko Require Import Corr.C11.", Type: "licx_case", Check: "check_licx", Shard: 70}
 	mlicCases(w, seed, tier)
+	releaseCases(w, seed, tier)
 	r := gal.NewRand(4243)
 	img := "sha256:" + hexOf(r, 64)
 	l1 := sha(r)
